@@ -415,6 +415,19 @@ func Extra(name string) *DAG {
 		m1 := d.Manifest("M1", c, []int{l1}, ManifestOpt{Subject: -1, LayerTitles: []string{"app.bin"}})
 		m2 := d.Manifest("M2", c, []int{l2}, ManifestOpt{Subject: -1, LayerTitles: []string{"app.bin"}})
 		d.Index("I", []int{m1, m2}, no())
+	case "annotated-index": // predecessors that are indexes and carry the annotation a filter looks at
+		c := d.Blob("C", MTConfig, "{}")
+		l := d.Blob("L", MTLayer, "l")
+		m := d.Manifest("M", c, []int{l}, no())
+		d.Index("IX1", []int{m}, ManifestOpt{Subject: -1, Annotations: map[string]string{"k": "v1"}})
+		d.Index("IX2", []int{}, ManifestOpt{Subject: m, Annotations: map[string]string{"k": "v2"}})
+		d.Manifest("R", c, nil, ManifestOpt{Subject: m, ArtifactType: "application/vnd.test.sig", Annotations: map[string]string{"other": "x"}})
+	case "index-with-blob": // an index that lists, next to a manifest, an entry that is not a manifest
+		c := d.Blob("C", MTConfig, "{}")
+		l := d.Blob("L", MTLayer, "l")
+		b := d.Blob("SBOM", "application/spdx+json", "{\"spdx\":1}")
+		m := d.Manifest("M", c, []int{l}, no())
+		d.Index("I", []int{m, b}, no())
 	case "many-referrers": // more pending predecessors at once than any small shape has (work-list growth)
 		c := d.Blob("C", MTConfig, "{}")
 		l := d.Blob("L", MTLayer, "l")
